@@ -537,6 +537,43 @@ def explore(seed=1, budget_ms=12000, replay_ops=None):
         shutil.rmtree(scratch, ignore_errors=True)
 
 
+def digest(features, seed=1, nrandom=4000, transcript_ops=None):
+    """C17: build tools/replay against the working tree with the given cargo features of indextree and
+    return its `digest` output (one line per operation sequence: hash of everything the calls returned +
+    the final arena).  With transcript_ops: the full transcript of that one sequence.  Cached."""
+    main_rs = open(os.path.join(VERIF, "tools", "replay", "src", "main.rs")).read()
+    key = sha(repo_src_hash() + main_rs + ",".join(features) + str(seed) + str(nrandom) + (transcript_ops or ""))
+    cdir = os.path.join(BUILD, "cache")
+    os.makedirs(cdir, exist_ok=True)
+    cpath = os.path.join(cdir, "digest-" + key + ".json")
+    if os.path.exists(cpath):
+        return json.load(open(cpath))
+    scratch = tempfile.mkdtemp(prefix="vx.", dir="/var/tmp")
+    try:
+        tmpl = open(os.path.join(VERIF, "tools", "replay", "Cargo.toml.tmpl")).read().replace("@REPO@", REPO)
+        feats = ", ".join('"%s"' % f for f in features)
+        tmpl2 = tmpl.replace('features = ["std"]', "features = [%s]" % feats)
+        if tmpl2 == tmpl and tuple(features) != ("std",):
+            raise Undecided("tools/replay/Cargo.toml.tmpl: feature list not found")
+        open(os.path.join(scratch, "Cargo.toml"), "w").write(tmpl2)
+        os.makedirs(os.path.join(scratch, "src"))
+        open(os.path.join(scratch, "src", "main.rs"), "w").write(main_rs)
+        p = sh(["cargo", "build", "--offline", "--release"], cwd=scratch, check=False, timeout=1200)
+        if p.returncode != 0:
+            raise Undecided("the differential runner does not build against /repo with features {%s}: %s" % (",".join(features), p.stderr[-1500:]))
+        binp = os.path.join(scratch, "target", "release", "vx-replay")
+        cmd = [binp, "transcript", transcript_ops] if transcript_ops else [binp, "digest", str(seed), str(nrandom)]
+        try:
+            q = subprocess.run(cmd, stdout=subprocess.PIPE, stderr=subprocess.PIPE, text=True, timeout=600)
+        except subprocess.TimeoutExpired:
+            raise Undecided("the differential runner did not finish with features {%s}" % ",".join(features))
+        out = q.stdout.splitlines()
+        json.dump(out, open(cpath, "w"))
+        return out
+    finally:
+        shutil.rmtree(scratch, ignore_errors=True)
+
+
 # ---------------------------------------------------------------- bounded Kani harnesses (get_node_id)
 
 KANI_HARNESSES = ["get_node_id_roundtrip_fresh", "get_node_id_roundtrip_recycled"]
